@@ -68,9 +68,9 @@ theorem c07_wrk_record_accepts_only_higher (g : GenCfg) (hg : GenRegValid g) (s 
         omega
     have hne : (m.id, m.lowest) ≠ (m.id, key) := by
       intro e; have := (Prod.mk.inj e).2; omega
-    show find? (erase (AL.insert s.wrk.recs (m.id, key) (wrkRec rc now key)) (m.id, m.lowest)) (m.id, key) = _
-    rw [find_erase_ne _ _ _ hne, find_insert_eq]; rfl
-  · exact ⟨m, _, hm, hgt, hk, find_insert_eq _ _ _, rfl, find_insert_eq _ _ _⟩
+    show find? (erase (insertRec s.wrk.recs (m.id, key) (wrkRec rc now key)) (m.id, m.lowest)) (m.id, key) = _
+    rw [find_erase_ne _ _ _ hne, find_insertRec_eq]; rfl
+  · exact ⟨m, _, hm, hgt, hk, find_insert_eq _ _ _, rfl, find_insertRec_eq _ _ _⟩
 
 /-- BEACON timestamp identifiers are assigned consecutively (previous id + 1, the first one is 1)
 in submission order, and the timestamp is stored verbatim (hash and submit time). -/
@@ -89,10 +89,10 @@ theorem c07_bcn_ids_consecutive (g : GenCfg) (hg : GenRegValid g) (s : State) (h
       intro e; have := (Prod.mk.inj e).2; omega
     refine ⟨m, _, hm, hk, find_insert_eq _ _ _, hk.symm, ?_⟩
     subst hk
-    show find? (erase (AL.insert s.bcn.recs (m.id, m.last + 1) _) (m.id, m.lowest)) (m.id, m.last + 1) = _
-    rw [find_erase_ne _ _ _ hne, find_insert_eq]
+    show find? (erase (insertRec s.bcn.recs (m.id, m.last + 1) _) (m.id, m.lowest)) (m.id, m.last + 1) = _
+    rw [find_erase_ne _ _ _ hne, find_insertRec_eq]
   · subst hk
-    exact ⟨m, _, hm, rfl, find_insert_eq _ _ _, rfl, find_insert_eq _ _ _⟩
+    exact ⟨m, _, hm, rfl, find_insert_eq _ _ _, rfl, find_insertRec_eq _ _ _⟩
 
 /-- a freshly registered BEACON starts at last id 0, so its first timestamp gets id 1 -/
 theorem c07_bcn_first_id_is_one (s : RegState) (now : Nat) (mk nm gn ty : String) (o : AddrTok) (s' : RegState) (id : Nat)
